@@ -82,6 +82,22 @@ pub fn lib_encode(msg: &StunMessage, buf_len: usize, padding: Option<u8>) -> Res
     Ok(buf)
 }
 
+/// A constructor refused the message.  The generators stay inside the documented limits on purpose, with one
+/// exception: USERNAME values whose OpaqueString-enforced form exceeds 508 bytes (boundary cases).  Any other refusal
+/// means a value within the documented limits cannot be built ("every message that can be built ... encodes").
+pub fn expected_rejection(msg: &RMsg, err: &str) -> Result<(), String> {
+    let long_name = msg.attrs.iter().any(|a| matches!(a, RAttr::UserName(s) if ref_opaque(s).len() > 508));
+    if long_name {
+        Ok(())
+    } else {
+        Err(format!(
+            "a public constructor refused a value inside the documented limits: {} (message: {})",
+            err,
+            crate::report::truncate(&format!("{:?}", msg.attrs), 400)
+        ))
+    }
+}
+
 pub struct Prepared {
     /// the model with every value replaced by what the library's constructor stored
     pub model: RMsg,
